@@ -1,9 +1,12 @@
 (* Eco/Alpine/Range.v — model of pkg/ecosystem/alpine/range.go *)
 From Verif.Base Require Import Bytes GoNum Ord.
+From Verif.Gen Require Operators.
 From Verif.Eco Require Import RangeCore.
 
 (* operators := []string{">=", "<=", "!=", ">", "<", "="} in parseConstraint *)
-Definition alpine_ops : list bytes := [$">="; $"<="; $"!="; $">"; $"<"; $"="].
+(* the list is generated from the Go source on every run (tools/gen -> Gen/Operators.v) *)
+Definition alpine_ops : list bytes :=
+  Eval cbv delta [Verif.Gen.Operators.alpine_ops] in Verif.Gen.Operators.alpine_ops.
 
 (* strings.Fields, HasPrefix loop (empty remainder is an error), bounds kept as text and
    parsed in Contains (an unparsable bound makes Contains false) *)
